@@ -5,7 +5,7 @@ machinery.  Exit 2/3 (undecided / contract out of date) are not alarms.  Results
 import glob, json, os, subprocess, sys
 COVER = {"E1": ["C18", "C09"], "E2": ["C09", "C12"], "E3": ["C09"], "E4": ["C12", "C08", "C13"], "E5": ["C05", "C08"],
          "E6": ["C03"], "E7": ["C03"], "E8": ["C18"], "E9": ["C04"], "E10": ["C06"], "E11": ["C01", "C10"], "E12": ["C01", "C11"],
-         "E13": ["C09"], "E14": ["C04", "C13"], "E15": ["C17"], "E16": ["C14", "C13"], "E17": ["C06", "C13"]}
+         "E13": ["C09"], "E14": ["C04", "C13"], "E15": ["C17"], "E16": ["C14", "C13"], "E17": ["C06", "C13"], "E18": ["C16", "C17"]}
 out = {}
 for f in sorted(glob.glob("/verif/selftest/equivalent/*.diff")):
     name = os.path.basename(f)[:-5]
